@@ -4,7 +4,7 @@
 (* set of records [ast, fl] together with the haystacks it is run on.      *)
 (* TIER scales the families: "quick" for every change, "thorough" deep.    *)
 (***************************************************************************)
-EXTENDS RegexAST, TLC
+EXTENDS RegexAST, ClassSet, TLC
 
 CONSTANT TIER
 
@@ -270,11 +270,60 @@ F10 == With(F10Pats, NoFlags) \cup With(F10Pats, UFlags)
 F10Hay == [alpha |-> {ca, cb, cc}, maxlen |-> IF Thorough THEN 5 ELSE 4]
 
 (***************************************************************************)
+(* FC1: bracket expressions without v: every sequence of one or two items  *)
+(* (characters of the s/k fold classes, ranges, class escapes and their    *)
+(* negations, Unicode properties and their negations), negated or not,     *)
+(* with and without i and u; several spellings of the same class.          *)
+(* FC2: class sets (v): leaves, every binary union / intersection /        *)
+(* subtraction of leaves, nested negations, and one more level of          *)
+(* operators, with v and iv.                                               *)
+(***************************************************************************)
+FCItemsPlain == { IC(cs), IC(cS), IC(cLongS), IC(ck), IC(cKelvin), IR(ca, 122), IR(65, 90), IR(cLongS, cLongS),
+                  IE("w"), IE("W"), IE("d"), IE("D"), IE("S"), IC(c1), IC(cUnderscore), IC(cDash), IR(c0, cs) }
+FCItemsProp == { IP("Lu", FALSE), IP("Lu", TRUE), IP("Ll", FALSE), IP("Ll", TRUE) }
+FCSeqs(I) == {<<x>> : x \in I} \cup {<<x, y>> : x \in I, y \in I}
+FC1Legacy == UNION { With({Cls(neg, its) : its \in FCSeqs(FCItemsPlain), neg \in BOOLEAN}, fl)
+                     : fl \in {NoFlags, Flags(TRUE, FALSE, FALSE, FALSE, FALSE)} }
+FC1Uni == UNION { With({Cls(neg, its) : its \in FCSeqs(FCItemsPlain \cup FCItemsProp), neg \in BOOLEAN}
+                       \cup {Prop(nm, ng) : nm \in {"Lu", "Ll"}, ng \in BOOLEAN}, fl)
+                  : fl \in {UFlags, Flags(TRUE, FALSE, FALSE, TRUE, FALSE)} }
+\* the same classes under v are class sets (unions)
+FC1Sets == UNION { With({Cls(neg, its) : its \in FCSeqs({IC(cs), IC(cKelvin), IR(ca, 122), IE("w"), IE("W"), IE("D"),
+                                                            IP("Lu", FALSE), IP("Lu", TRUE), IP("Ll", TRUE), IC(c1)}), neg \in BOOLEAN}
+                        \cup {Prop(nm, ng) : nm \in {"Lu", "Ll"}, ng \in BOOLEAN}, fl)
+                   : fl \in {Flags(FALSE, FALSE, FALSE, FALSE, TRUE), Flags(TRUE, FALSE, FALSE, FALSE, TRUE)} }
+\* spellings: sp = 0 canonical, 1 = \u escapes, 2 = \x escapes (the runner's renderer)
+FC1All == FC1Legacy \cup FC1Uni \cup FC1Sets
+FC1 == {[ast |-> x.ast, fl |-> x.fl, sp |-> 0] : x \in FC1All}
+         \cup {[ast |-> x.ast, fl |-> x.fl, sp |-> sp] :
+                  x \in {y \in FC1All : Thorough \/ (y.ast.t = "cls" /\ Len(y.ast.items) = 1)}, sp \in {1, 2}}
+FCHay == [alpha |-> {cs, cS, cLongS, ck, cK, cKelvin, ca, c1, cUnderscore}, maxlen |-> 2]
+
+Str(a, b) == <<a, b>>
+FC2Leaves == { SC(cs), SC(cKelvin), SC(cLongS), SR(ca, 122), SE("w"), SE("W"), SE("d"), SP("Lu", FALSE), SP("Lu", TRUE),
+               SP("Ll", TRUE), SQ(<<Str(cs, ck), <<cs>>>>), SQ(<< <<>> >>), SQ(<< <<ck>> >>), SC(c1), SQ(<<Str(cS, cK), Str(ck, ck)>>) }
+FC2Small == IF Thorough THEN { SC(cs), SC(cKelvin), SR(ca, 122), SE("W"), SP("Lu", TRUE), SQ(<<Str(cs, ck), <<cs>>>>), SP("Ll", FALSE), SQ(<< <<>> >>) }
+            ELSE { SC(cs), SR(ca, 122), SE("W"), SP("Lu", TRUE), SQ(<<Str(cs, ck), <<cs>>>>) }
+FC2Ops(x, y) == { SU(<<x, y>>), SI(<<x, y>>), SS(<<x, y>>) }
+FC2E1 == FC2Leaves \cup UNION {FC2Ops(x, y) : x \in FC2Small, y \in FC2Small}
+           \cup {SN(TRUE, x) : x \in {y \in FC2Leaves : ~MayContainStrings(y)}}
+FC2Tiny == { SC(cs), SE("W"), SQ(<<Str(cs, ck), <<cs>>>>) }
+FC2Inner == IF Thorough THEN {z \in FC2E1 : z.k \in {"u", "i", "s"}} ELSE UNION {FC2Ops(x, y) : x \in FC2Tiny, y \in FC2Tiny}
+FC2E2 == UNION {FC2Ops(SN(FALSE, x), y) \cup FC2Ops(y, SN(ng, x)) : x \in FC2Inner, y \in FC2Small, ng \in BOOLEAN}
+FC2Exprs == {x \in FC2E1 \cup FC2E2 : WellFormedSet(x)}
+FC2Pats == {VCls(FALSE, x) : x \in FC2Exprs} \cup {VCls(TRUE, x) : x \in {y \in FC2Exprs : ~MayContainStrings(y)}}
+FC2 == {[ast |-> n, fl |-> fl, sp |-> 0] : n \in FC2Pats,
+          fl \in {Flags(FALSE, FALSE, FALSE, FALSE, TRUE), Flags(TRUE, FALSE, FALSE, FALSE, TRUE)}}
+         \cup {[ast |-> Cat(<<Look(n, TRUE, FALSE), Eol>>), fl |-> Flags(TRUE, FALSE, FALSE, FALSE, TRUE), sp |-> 1] :
+                  n \in {VCls(FALSE, x) : x \in FC2E1}}
+
+(***************************************************************************)
 (* Registry                                                                *)
 (***************************************************************************)
 HaysOf(spec) == StringsUpTo(spec.alpha, spec.maxlen)
 
 AttachHays(F, spec) == {[ast |-> x.ast, fl |-> x.fl, hays |-> HaysOf(spec)] : x \in F}
+AttachHaysSp(F, spec) == {[ast |-> x.ast, fl |-> x.fl, sp |-> x.sp, hays |-> HaysOf(spec)] : x \in F}
 
 FamilyCases(name) ==
   CASE name = "F1" -> AttachHays(F1, F1Hay)
@@ -289,4 +338,6 @@ FamilyCases(name) ==
     [] name = "F9" -> F9
     [] name = "F1b" -> AttachHays(F1b, F1bHay)
     [] name = "F13" -> AttachHays(F13, F13Hay)
+    [] name = "FC1" -> AttachHaysSp(FC1, FCHay)
+    [] name = "FC2" -> AttachHaysSp(FC2, FCHay)
 =============================================================================
